@@ -163,7 +163,15 @@ class Extension:
 def _gettext_alias(
     __context: Context, *args: t.Any, **kwargs: t.Any
 ) -> t.Any | Undefined:
-    return __context.call(__context.resolve("gettext"), *args, **kwargs)
+    func = __context.resolve("gettext")
+
+    # go through the sandbox like a call written in the template would
+    if __context.environment.sandboxed:
+        return __context.environment.call(  # type: ignore[attr-defined]
+            __context, func, *args, **kwargs
+        )
+
+    return __context.call(func, *args, **kwargs)
 
 
 def _make_new_gettext(func: t.Callable[[str], str]) -> t.Callable[..., str]:
